@@ -11,7 +11,7 @@ from .lane import HarnessError
 PROP = "C17"
 T0_US = 1_750_000_000_000_000          # 2025-06
 DECADE_US = 10 * 365 * 86400 * 1_000_000
-FAULT_KINDS = ["crash-call", "crash-byte", "eio-open", "eacces-open", "emfile-open", "enospc-mkdir", "eio-mkdir", "enospc-write"]
+FAULT_KINDS = ["crash-call", "crash-byte", "eio-open", "eacces-open", "emfile-open", "enospc-mkdir", "eio-mkdir", "enospc-write", "eio-call"]
 CLOCK_POLICIES = ["mono", "frozen", "rewind", "collide"]
 
 
@@ -171,7 +171,10 @@ def gen_curve_item(w, m):
         item["units"] = w.choice(["kg/(m2*h*kPa)", "GPU", "SI", None])
         scale = {"GPU": (1e-1, 1e5), "SI": (1e-11, 1e-5)}.get(item["units"], (1e-9, 1e3))
         item["permeances"] = [[wg.logu(w, scale[0], scale[1], 9), wg.logu(w, scale[0], scale[1], 9)] for _ in comps]
-        item["pt"] = item["pp"] = None
+        # a permeate condition is a legal (stored) attribute of a permeance-built curve too
+        mode = w.choice(["none", "none", "pp", "pt"])
+        item["pt"] = round(T - w.uniform(40, 80), 2) if mode == "pt" else None
+        item["pp"] = wg.logu(w, 1e-3, 1.0, 4) if mode == "pp" else None
     return item
 
 
@@ -245,12 +248,14 @@ def _est_bytes(item):
 def gen_fault(f, opkind, item):
     kind = f.choice(FAULT_KINDS)
     if opkind.startswith("load"):
-        kind = f.choice(["crash-call", "eio-open", "eacces-open", "emfile-open"])
+        kind = f.choice(["crash-call", "eio-open", "eacces-open", "emfile-open", "eio-call"])
     if opkind in ("save_curve", "save_fn", "save_cond") and kind in ("enospc-mkdir", "eio-mkdir"):
         kind = "enospc-write"
     ncalls = {"save_process": 10, "load_process": 9, "load_curve": 6}.get(opkind, 2)
     if kind == "crash-call":
         return {"kind": "crash", "at_call": f.randint(0, ncalls)}
+    if kind == "eio-call":
+        return {"kind": "eio-call", "at_call": f.randint(0, ncalls)}
     if kind == "crash-byte":
         return {"kind": "crash", "at_byte": f.randint(0, int(_est_bytes(item) * 1.05)), "flush": f.random() < 0.6}
     if kind == "enospc-write":
@@ -417,7 +422,7 @@ def _write_paths(events):
     out = []
     for e in events:
         fn = e[0]
-        if any(isinstance(x, str) and (x.startswith("ERR:") or x in ("CRASH", "eio-open", "eacces-open", "emfile-open", "enospc-mkdir", "eio-mkdir")) for x in e[3:]):
+        if any(isinstance(x, str) and (x.startswith("ERR:") or x in ("CRASH", "eio-open", "eacces-open", "emfile-open", "enospc-mkdir", "eio-mkdir", "eio-call")) for x in e[3:]):
             continue      # the call failed or never happened: nothing was written
         if fn == "open" and any(ch in (e[2] or "") for ch in "wax+"):
             out.append(e[1])
